@@ -21,9 +21,13 @@ Section C10.
   (** Every operation, from a state satisfying the invariant, with size_t
       arguments: the invariant is re-established and the reference strings
       change exactly as the reference semantics [sspec] says (set, insert,
-      append, erase, substr, resize, reserve, swap, clear; at/find/compare
-      return what the list-level specifications say); nothing faults; an
-      abort happens exactly in the situations [sabort] lists. *)
+      append - including append_str_n, which appends exactly n characters of
+      its source -, erase, substr, resize, reserve, swap, clear;
+      at/at_const/find/compare return what the list-level specifications
+      say; data is NULL only for a string without storage and otherwise the
+      start of the live block where the reference string followed by NUL is
+      read); nothing faults; an abort happens exactly in the situations
+      [sabort] lists. *)
   Theorem C10_step_refines s o :
     ssys_ok s -> op_small o ->
     match sstep s o with
@@ -254,6 +258,65 @@ Section C10.
     end.
   Proof. exact (s_at_spec al v i). Qed.
 
+  (** at_const is at: same abort condition, same pointer, same character *)
+  Theorem C10_at_const al v i :
+    str_ok al v ->
+    s_at_const al v i = s_at al v i /\
+    match s_at_const al v i with
+    | Ok (off, c) => i < s_size v /\ off = i * esize v /\ c = nth (N.to_nat i) (sabs v) POISON
+    | Abt => s_size v <= i
+    | Flt => False
+    end.
+  Proof. intros So. split; [reflexivity|exact (s_at_const_spec al v i So)]. Qed.
+
+  (** append_str_n(s, str, len): exactly [len] characters of the source
+      (NULs included: nothing stops at a NUL) are appended; aborts iff
+      len > 0 and the growth cannot be satisfied; the source must hold at
+      least [len] characters *)
+  Theorem C10_append_str_n al v src len :
+    alloc_ok al -> no_bad_free al -> str_ok al v -> len < W64 ->
+    (N.to_nat len <= length src)%nat ->
+    match append_str_n ok false al v src len with
+    | Ok (al', v') =>
+      (0 < len -> ~ grow_fails ok al v (s_size v + len)) /\
+      alloc_ok al' /\ no_bad_free al' /\ str_ok al' v' /\ heap_frame al al' (base v) (base v') /\
+      esize v' = esize v /\
+      sabs v' = sabs v ++ firstn (N.to_nat len) src
+    | Abt => 0 < len /\ grow_fails ok al v (s_size v + len)
+    | Flt => False
+    end.
+  Proof. exact (append_str_n_spec ok al v src len). Qed.
+
+  Theorem C10_append_str_n_aborts_iff al v src len :
+    alloc_ok al -> no_bad_free al -> str_ok al v -> len < W64 ->
+    (N.to_nat len <= length src)%nat ->
+    (append_str_n ok false al v src len = Abt <-> 0 < len /\ grow_fails ok al v (s_size v + len)).
+  Proof.
+    intros A NB So Hl Hs. pose proof (append_str_n_spec ok al v src len A NB So Hl Hs) as H.
+    destruct (append_str_n ok false al v src len) as [[al' v']| |]; split; auto; try discriminate; try contradiction.
+    destruct H as (NF & _). intros (X1 & X2). exfalso. apply (NF X1 X2).
+  Qed.
+
+  (** append_str_n is insert_str_n at the end (the header's composition) *)
+  Theorem C10_append_str_n_is_insert_at_end al v src len :
+    append_str_n ok false al v src len = insert_str_n ok false al v (s_size v) src len.
+  Proof. reflexivity. Qed.
+
+  (** data: NULL only for a string that never had storage (which is then
+      empty); once the string holds its terminator (after any set, resize,
+      insertion, ...), data is the start of a live block large enough for
+      size + 1 characters, the characters readable there are the reference
+      string followed by NUL, and they are the ones str() shows *)
+  Theorem C10_data s i v :
+    ssys_ok s -> nth_error (vecs s) i = Some v ->
+    (s_data v = None -> count v = 0 /\ cap v = 0 /\ sabs v = [] /\ data_obs (heap s) v = [1%Z]) /\
+    (0 < count v ->
+     exists b bs, s_data v = Some b /\ block_size (heap s) b = Some bs /\ (s_size v + 1) * esize v <= bs /\
+       rd_range (heap s) v 0 (s_size v + 1) = Ok (sabs v ++ [NUL]) /\
+       s_view false (heap s) v = Ok (sabs v ++ [NUL]) /\
+       data_obs (heap s) v = 0%Z :: Z.of_nat b :: 0%Z :: 1%Z :: map Z.of_N (sabs v)).
+  Proof. intros So E. exact (s_data_spec (heap s) v (ssys_nth s i v So E)). Qed.
+
   (** find_ch = strchr: the first occurrence at or after pos with no NUL
       before it, or -1 (the terminator itself is never reported) *)
   Theorem C10_find_ch al v c pos :
@@ -323,6 +386,29 @@ Example C10_example_run :
   end.
 Proof. vm_compute. reflexivity. Qed.
 
+(** Non-vacuity for the later entry points: append_str_n copies exactly n
+    characters (here 2 of 3, then a NUL in the middle), at_const reads the
+    byte offset and character, data shows block 2 / offset 0 / terminated /
+    the characters; a fresh string's data is NULL, and storage that was only
+    reserved is reported (block 4) but not read.  Also: a count beyond the
+    source that cannot be satisfied aborts before the source is read. *)
+Example C10_example_new_api :
+  let ok := script_oracle [] None in
+  let ops := [SData 1; SSet 0 [97]; SAppendStrN 0 2 [98; 99; 100]; SAppendStrN 0 2 [0; 101]; SAtConst 0 4; SData 0;
+              SReserve 1 3; SData 1] in
+  match run (StrModel.sstep ok false) (str_init 4 2) ops with
+  | (Done s _, out) =>
+    sabs_sys s = [[97; 98; 99; 0; 101]; []] /\
+    out = [[1]; []; []; []; [16; 101]; [0; 3; 0; 1; 97; 98; 99; 0; 101]; []; [0; 4; 0]]%Z
+  | _ => False
+  end.
+Proof. vm_compute. split; reflexivity. Qed.
+
+Example C10_example_append_str_n_huge_aborts :
+  fst (run (StrModel.sstep (script_oracle [] None) false) (str_init 1 1) [SSet 0 [97]; SAppendStrN 0 SIZE_MAX [98]]) = Abort /\
+  fst (run (StrModel.sstep (script_oracle [] None) false) (str_init 1 1) [SSet 0 [97]; SAppendStrN 0 2 [98]]) = Precond.
+Proof. vm_compute. split; reflexivity. Qed.
+
 Print Assumptions C10_step_refines.
 Print Assumptions C10_run_never_faults.
 Print Assumptions C10_nul_terminated.
@@ -341,6 +427,11 @@ Print Assumptions C10_erase_aborts_iff.
 Print Assumptions C10_resize_aborts_iff.
 Print Assumptions C10_no_leak.
 Print Assumptions C10_at.
+Print Assumptions C10_at_const.
+Print Assumptions C10_append_str_n.
+Print Assumptions C10_append_str_n_aborts_iff.
+Print Assumptions C10_append_str_n_is_insert_at_end.
+Print Assumptions C10_data.
 Print Assumptions C10_find_ch.
 Print Assumptions C10_find_str.
 Print Assumptions C10_compare.
